@@ -408,19 +408,6 @@ func emptyT(op syntax.EmptyOp, s []value, pos int) string {
 	return and(cs...)
 }
 
-var defCount int
-
-// define introduces a named Boolean for a term to keep formulas linear.
-func define(t string) string {
-	if t == "true" || t == "false" || !strings.HasPrefix(t, "(") {
-		return t
-	}
-	defCount++
-	n := fmt.Sprintf("|d!%d|", defCount)
-	X.emit("(define-fun " + n + " () Bool " + t + ")")
-	return n
-}
-
 // nfaMatch returns the condition "re matches somewhere in s" by unrolling the
 // compiled program over the (concrete many, symbolic valued) positions.
 func nfaMatch(re *regexp.Regexp, s []value) string {
